@@ -353,11 +353,15 @@ theorem safe_slot_step (W : World) (_g : GoodParams W.P) (f : Nat) (ih : SafeAt 
       · exact safe_bindR _ _ (ih.list _ _ _) (fun _ _ => rfl)
       · exact ih.list _ _ _
     · split
+      · rfl
+      · split
+        · exact ih.list _ _ _
+        · rfl
+  · split
+    · rfl
+    · split
       · exact ih.list _ _ _
       · rfl
-  · split
-    · exact ih.list _ _ _
-    · rfl
 
 theorem safeAt_all (W : World) (g : GoodParams W.P) : ∀ f, SafeAt W f
   | 0 => safeAt_zero W
